@@ -677,7 +677,12 @@ func (s *Store) commit() (types.Work, error) {
 }
 
 func (s *Store) outstandingWork() bool {
-	return s.index.OutstandingWork()+s.index.Primary.OutstandingWork() > 0
+	// Freelist entries count too. Primary GC puts the old location of a record
+	// onto the freelist after it relocated the record, and a flush that lands in
+	// between leaves that entry as the only thing not written. If it did not
+	// count as work, an otherwise idle store would never flush it, and GC could
+	// never reclaim the old record.
+	return s.index.OutstandingWork()+s.index.Primary.OutstandingWork()+s.freelist.OutstandingWork() > 0
 }
 
 // Flush writes outstanding work and buffered data to the primary, index, and
